@@ -90,6 +90,29 @@ pub struct TransportConfig {
     pub event_channel_capacity: usize,
 }
 
+/// Removes a pending `/rr/` request from the table when dropped.
+struct PendingRequestGuard {
+    requests: Arc<RwLock<HashMap<String, PendingRequest>>>,
+    message_id: String,
+}
+
+impl Drop for PendingRequestGuard {
+    fn drop(&mut self) {
+        if let Ok(mut reqs) = self.requests.try_write() {
+            reqs.remove(&self.message_id);
+            return;
+        }
+        // Table busy right now: finish the removal on the runtime.
+        if let Ok(handle) = tokio::runtime::Handle::try_current() {
+            let requests = Arc::clone(&self.requests);
+            let message_id = std::mem::take(&mut self.message_id);
+            handle.spawn(async move {
+                requests.write().await.remove(&message_id);
+            });
+        }
+    }
+}
+
 /// Encapsulates transport-level concerns: QUIC connections, peer registry,
 /// message I/O, and network events.
 ///
@@ -719,6 +742,12 @@ impl TransportHandle {
                 },
             );
         }
+        // Remove the entry on every exit path, including the caller dropping this
+        // future while it waits: a leaked entry permanently eats a slot of the cap.
+        let _pending_guard = PendingRequestGuard {
+            requests: Arc::clone(&self.active_requests),
+            message_id: message_id.clone(),
+        };
 
         let envelope = RequestResponseEnvelope {
             message_id: message_id.clone(),
